@@ -144,7 +144,8 @@ def program_strategy(with_ctx=False, max_nodes=7, argdep=False):
     from hypothesis import strategies as st
 
     ctxs = st.one_of(st.none(), st.none(), st.just({}),
-                     st.dictionaries(st.sampled_from(["tenant", "asof"]), st.sampled_from(["a", "b", 1]), min_size=1, max_size=2))
+                     st.dictionaries(st.sampled_from(["tenant", "asof"]), st.sampled_from(["a", "b", 1]), min_size=1, max_size=2),
+                     st.dictionaries(st.sampled_from(["tenant", "asof", "k \u00e9"]), st.sampled_from(["a", 1, True, 2.5, [1, 2], {"n": 1}, "\udce9"]), min_size=1, max_size=3))
 
     @st.composite
     def prog(draw):
